@@ -377,14 +377,21 @@ def void_counter(ctx, db, rid):
              'count == 0', floor=2)
     for name, want in (('cocls::primitives::std_queue::emplace', '++'), ('cocls::primitives::std_queue::pop', '=')):
         for f in db.need(name)[:1]:
-            ws = [e for e in f.events() if e.k == 'write' and (e.get('path') or '') == 'this->_sz']
-            ok = len(ws) == 1 and not has_back_edge(f)
-            if want == '++':
-                ok = ok and delta_of_write(ws[0]) == 1
-            else:
-                rhs = re.sub(r'\s+', '', ws[0].get('rhs') or '')
-                # max(1, _sz) - 1 (saturating decrement), or a plain decrement guarded by a non-zero test
-                ok = ok and (rhs in ('(call(std::max)-1)',) or bool(re.fullmatch(r'\(local:\w+-1\)', rhs)) or delta_of_write(ws[0]) == -1)
+            trs_ = [t for t in htracer(db).traces(f) if live(t)]
+            ok = bool(trs_) and not has_back_edge(f)
+            for tr in trs_:
+                ws = [(i_, it) for i_, it in enumerate(tr) if it.k == 'write' and (it.get('path') or '') == 'this->_sz']
+                if len(ws) != 1:
+                    ok = False; continue
+                i_, w_ = ws[0]
+                if want == '++':
+                    ok = ok and delta_of_write(w_) == 1
+                else:
+                    # max(1, _sz) - 1 (saturating decrement; possibly computed by a small helper), or a plain decrement guarded by a non-zero test
+                    rhs = re.sub(r'\s+', '', origin_in_trace(tr, i_, w_.get('rhs'))[0] or w_.get('rhs') or '')
+                    mx = next((c_ for c_ in reversed(tr[:i_]) if c_.k == 'call' and norm(c_.get('callee') or '') == 'std::max'), None)
+                    sat = rhs in ('(call(std::max)-1)',) and mx is not None and any(a_.get('const') == 1 for a_ in mx.get('args', [])) and any((a_.get('path') or '') == 'this->_sz' for a_ in mx.get('args', []))
+                    ok = ok and (sat or bool(re.fullmatch(r'\(local:\w+-1\)', rhs)) or delta_of_write(w_) == -1)
             ctx.ob(rid, f, f['key'], ok, '%s changes the token count by exactly one' % name.split('::')[-1], desc='std_queue<void>::%s does not change the count by one' % name.split('::')[-1])
 
 
